@@ -258,6 +258,7 @@ fn send_transfer_cp(Ghost(inside): Ghost<bool>, writer: &mut ChanSender<LinkFram
 
 impl SenderLink {
 //@@ fn file=fe2o3-amqp/src/link/sender_link.rs impl=`impl<T> SenderLink<T> where T: Into<TargetArchetype> + TryFrom<TargetArchetype> + VerifyTargetArchetype + Clone + Send + Sync,` name=send_transfer_without_modifying_unsettled_map
+//@@ attr #[verifier::loop_isolation(false)]
 //@@ shape loops=while
 //@@ param writer : &mut ChanSender<LinkFrame>
 //@@ subst `send_transfer( writer,` => `send_transfer_cp( Ghost(writer.sent@.len() > w0.len()), writer,` rule=R9
